@@ -840,6 +840,15 @@ def m_map(engine, st, fr, callee, args, ops):
     for x in _items(engine, st, args[0]):
         if isinstance(clo, sym.FnV) and "{closure" in clo.name:
             out.append(_apply(engine, st, clo, [x]))
+        elif isinstance(clo, sym.FnV):
+            # a named function as the mapper
+            res = engine.call_pure(st, engine.resolve_fn(clo.name), [x])
+            res = [r for r in res if r.status == "return"]
+            if len(res) != 1:
+                raise Unsupported("map with %s: %d returning paths" % (clo.name, len(res)))
+            out.append(res[0].value)
+        elif isinstance(clo, Adt) and clo.variant is not None and not clo.fields:
+            out.append(Adt(clo.ty, clo.variant, [x]))
         else:
             raise Unsupported("map with %r" % (clo,))
     return citer(out)
